@@ -7,7 +7,9 @@ J1  TLC model-checks spec/mmatch/ManifestMatch.tla: the greedy matching loop of 
 J2  the same TLC runs print the enumerated pairs (every match, every near miss, a seeded sample of the rest);
     `vh mmatch run` concretises each under 6 schemes into real manifest.Manifest / dtypes.Group values and runs the
     real validation functions, the real provider/manifest Service.Submit path (version gate) and the real
-    sdl.ManifestVersion (bases, JSON key orders, every single-field mutation found by reflection).
+    sdl.ManifestVersion (bases, JSON key orders, every single-field mutation found by reflection). The gate scenarios
+    include BATCHES (several Submit calls queued while the scripted chain query is held in flight) and record what the
+    provider announces on the real bus (event.ManifestReceived), which is judged like the replies.
 J3  TLC (ManifestMatchTrace.tla) judges the recorded observations with the same TLA+ definitions.
 """
 import json
@@ -146,6 +148,18 @@ def j1(tier, seed, cov):
     configs["MC_gate"] = {"distinct_states": r.distinct, "generated": r.generated, "wall_s": round(time.time() - t0, 1), "ok": True}
     states += r.distinct
     transitions += r.generated
+    # the gate with batched submissions (requests queued while the chain query is in flight) and announcements
+    t0 = time.time()
+    r = tlc(SPEC, "MCGate", "MC_gate_batch.cfg", timeout=1500)
+    vlib.tlc_require_ok(r, "J1 MC_gate_batch")
+    configs["MC_gate_batch"] = {"distinct_states": r.distinct, "generated": r.generated, "wall_s": round(time.time() - t0, 1), "ok": True}
+    states += r.distinct
+    transitions += r.generated
+    # non-vacuity: under the rule "keep the first QUEUED request of a batch" TLC must refute AnnounceSound
+    rv = tlc(SPEC, "MCGate", "MC_gate_batch_seeded.cfg", timeout=900)
+    if rv.ok or rv.violated != "AnnounceSound":
+        raise vlib.Inconclusive("the batch model does not refute AnnounceSound under StoreRule=firstQueued (vacuous model?)")
+    configs["MC_gate_batch"]["refutes_first_queued_rule"] = True
     if tier == "thorough":   # non-vacuity: "the gate never accepts" must be refuted by TLC
         for vac in ("MC_gate_vac1.cfg", "MC_gate_vac2.cfg"):
             rv = tlc(SPEC, "MCGate", vac, timeout=900)
@@ -288,7 +302,7 @@ def violations_from(bad, lines, pairs_file):
         x = lines[l - 1]
         pair = json.dumps({"d": x["d"], "m": x["m"]}, sort_keys=True, separators=(",", ":"))
         sig = "%s:%s" % (inv, pair)
-        if x["kind"] == "gate":
+        if x["kind"] in ("gate", "batch"):
             sig = "%s:%s:%s" % (inv, x["scenario"], pair)
         out.append(vlib.Violation("C10", sig, "observation %d judged by TLC invariant %s:\n%s" % (l, inv, json.dumps(x)),
                                   {"pairs.ndjson": json.dumps({"d": x["d"], "m": x["m"]}) + "\n", "observation.json": json.dumps(x, indent=1)}))
@@ -320,6 +334,13 @@ def selftest(lines, work):
         g["accepted"] = True
         pick.append(g)
         want.append(("GateSound", len(pick)))
+    b = next((x for x in lines if x["kind"] == "batch" and x["announced"]
+              and any(not s["accepted"] and s["hid"] not in x["announced"] for s in x["subs"])), None)
+    if b:
+        b = cp(b)
+        b["announced"] = [next(s["hid"] for s in b["subs"] if not s["accepted"] and s["hid"] not in b["announced"])]
+        pick.append(b)   # the provider announces the manifest it refused
+        want.append(("AnnounceSound", len(pick)))
     hs = [x for x in lines if x["kind"] == "hash"]
     if hs:
         mid = hs[0]["mid"]
@@ -388,6 +409,7 @@ def run(pid, tier, seed, replay):
         "pairs_replayed": summ["pairs"], "pair_evaluations": summ["pair_evals"], "schemes": 6,
         "accepted_pairs": summ["accepted_pairs"], "resrej_pairs": summ["resrej_pairs"],
         "gate_pairs": summ["gate_pairs"], "gate_submits": summ["gate_submits"], "gate_accepted": summ["gate_accepted"],
+        "gate_batches": summ.get("gate_batches", 0), "announcements_observed": summ.get("announcements", 0),
         "sdl_files": summ.get("sdl_files", 0), "sdl_real_pairs": summ.get("sdl_pairs", 0), "sdl_real_pairs_accepted": summ.get("sdl_accepted", 0),
         "hash_bases": summ["hash_bases"], "hash_lines": summ["hash_lines"], "hash_mutants": summ["hash_mutants"],
         "hash_field_sites": summ.get("sites"), "hash_opaque_fields": summ.get("opaque") or [],
